@@ -150,5 +150,26 @@ pub fn elementwise_copy<T: Copy>(this: &mut [T], src: &[T]) {
     }
 }
 
+/// Element-wise replacement for `generic_array::GenericArray::clone_from_slice` (stubbed in every harness): the
+/// original goes through `from_exact_iter(list.iter().cloned())` and an `ArrayBuilder`, about 2000 symbolic-execution
+/// steps per byte; this loop does the same thing (same panic on a length mismatch) in a few steps per byte.
+/// `h_lemmas::lemma_stub_clone_from_slice` compares it with the original on the sizes used.
+pub fn ga_clone_from_slice<T: Clone, N: generic_array::ArrayLength<T>>(list: &[T]) -> generic_array::GenericArray<T, N> {
+    use generic_array::typenum::Unsigned;
+    if list.len() != N::USIZE {
+        panic!("Slice must be the same length as the array");
+    }
+    let mut out = core::mem::MaybeUninit::<generic_array::GenericArray<T, N>>::uninit();
+    let p = out.as_mut_ptr() as *mut T;
+    let mut i = 0;
+    while i < list.len() {
+        unsafe {
+            p.add(i).write(list[i].clone());
+        }
+        i += 1;
+    }
+    unsafe { out.assume_init() }
+}
+
 /// no-op replacement for `zeroize::optimization_barrier` (inline asm, unsupported by Kani)
 pub fn noop_barrier<T: ?Sized>(_: &T) {}
